@@ -137,6 +137,20 @@ def case(rng, allow_growth=None):
         if o.kind == 'list':
             c = r.random()
             p = path(o)
+            if allow_growth and r.random() < 0.12:
+                # a burst of pushes: the list is reallocated several times in a row
+                k = r.randint(5, 20)
+                base = uniq() * 100
+                stmts.append(For('bi', Call(Prop(Num(k), 'times'), []),
+                                 [ExprS(Call(Prop(p, 'push'), [Bin('+', Num(base), Var('bi'))]))]))
+                o.len += k
+                if o.len > o.cap:
+                    o.moved = True
+                    while o.cap < o.len:
+                        o.cap = max(1, o.cap * 2)
+                    tags.add('growth')
+                    tags.add('burst')
+                return
             if c < 0.3:
                 if o.len >= o.cap:
                     if not allow_growth:
@@ -163,7 +177,7 @@ def case(rng, allow_growth=None):
                 o.len -= 1
             elif c < 0.9 and o.len > 0:
                 stmts.append(ExprS(Assign(Index(p, Num(r.randint(0, o.len - 1))), Num(uniq()))))
-            elif c < 0.95:
+            elif c < 0.95 or (o.moved and r.random() < 0.5):
                 stmts.append(ExprS(Call(Prop(p, 'clear'), [])))
                 o.len = 0
         elif o.kind == 'map':
